@@ -142,6 +142,72 @@ def _names_in(node: ast.AST) -> Set[str]:
     return {x.id for x in ast.walk(node) if isinstance(x, ast.Name)} | {x.arg for x in ast.walk(node) if isinstance(x, ast.arg)}
 
 
+def _scope_names(fn: ast.AST) -> Set[str]:
+    """the names that live in the scope of the function itself: its own names and parameters, and what nested functions read
+    from it as free variables - not the locals of nested functions (a helper's local may share their name)"""
+    own: Set[str] = set()
+    nested = []
+
+    def walk(n, top):
+        for c in ast.iter_child_nodes(n):
+            if isinstance(c, (ast.FunctionDef, ast.AsyncFunctionDef, ast.Lambda)) and not top is None:
+                nested.append(c)
+                if not isinstance(c, ast.Lambda):
+                    own.add(c.name)
+                continue
+            if isinstance(c, ast.Name):
+                own.add(c.id)
+            elif isinstance(c, ast.arg):
+                own.add(c.arg)
+            walk(c, top)
+    walk(fn, fn)
+    for sub in nested:
+        bound = {x.id for x in ast.walk(sub) if isinstance(x, ast.Name) and isinstance(x.ctx, (ast.Store, ast.Del))} | {a.arg for a in ast.walk(sub) if isinstance(a, ast.arg)}
+        if any(isinstance(x, (ast.Nonlocal, ast.Global)) for x in ast.walk(sub)):
+            own |= _names_in(sub)
+        else:
+            own |= {x.id for x in ast.walk(sub) if isinstance(x, ast.Name) and x.id not in bound}
+    return own
+
+
+def _block_local(fn: ast.AST, name: str) -> bool:
+    """every read of `name` in the function's own scope is preceded, in its own block or a block around it (inside the same
+    loop body), by a plain assignment to it: the name is a temporary that carries nothing from one region of the function to
+    another, so a helper's local of the same name can share it"""
+    parent: Dict[int, Tuple[ast.AST, Optional[str], int]] = {}
+
+    def link(n):
+        for fld, val in ast.iter_fields(n):
+            if isinstance(val, list):
+                for i, c in enumerate(val):
+                    if isinstance(c, ast.AST):
+                        parent[id(c)] = (n, fld if val and isinstance(val[0], ast.stmt) else None, i)
+                        if not isinstance(c, (ast.FunctionDef, ast.AsyncFunctionDef, ast.Lambda, ast.ClassDef)):
+                            link(c)
+            elif isinstance(val, ast.AST):
+                parent[id(val)] = (n, None, 0)
+                if not isinstance(val, (ast.FunctionDef, ast.AsyncFunctionDef, ast.Lambda, ast.ClassDef)):
+                    link(val)
+    link(fn)
+    loads = [x for x in ast.walk(fn) if isinstance(x, ast.Name) and x.id == name and isinstance(x.ctx, ast.Load) and id(x) in parent]
+    for x in loads:
+        cur: ast.AST = x
+        ok = False
+        while id(cur) in parent:
+            par, fld, i = parent[id(cur)]
+            if fld is not None:
+                block = getattr(par, fld)
+                if any(isinstance(s_, ast.Assign) and any(isinstance(t, ast.Name) and t.id == name for t in s_.targets) for s_ in block[:i]):
+                    ok = True
+                    break
+            if par is fn or isinstance(par, (ast.For, ast.While)) and fld == "body":
+                break
+            cur = par
+        if not ok:
+            return False
+    return True
+
+
 def _always_terminates(stmts: List[ast.stmt]) -> bool:
     if not stmts:
         return False
@@ -478,7 +544,7 @@ class Inliner:
         body = copy.deepcopy(_body_wo_doc(h))
         assigned = {x.id for s in body for x in ast.walk(s) if isinstance(x, ast.Name) and isinstance(x.ctx, (ast.Store, ast.Del))}
         assigned |= {hd.name for s in body for hd in ast.walk(s) if isinstance(hd, ast.ExceptHandler) and hd.name}
-        caller_names = _names_in(caller)
+        caller_names = _scope_names(caller) if isinstance(caller, (ast.FunctionDef, ast.AsyncFunctionDef)) else _names_in(caller)
         subst: Dict[str, ast.AST] = {}
         renames: Dict[str, str] = {}
         pre: List[ast.stmt] = []
@@ -495,6 +561,8 @@ class Inliner:
                     renames[p] = nm
         for loc in assigned - set(args):
             if loc in caller_names and loc not in keep:
+                if isinstance(caller, (ast.FunctionDef, ast.AsyncFunctionDef)) and _block_local(caller, loc) and _block_local(h, loc):
+                    continue  # a temporary on both sides
                 renames[loc] = loc + tag
         sub = _Sub(subst, renames)
         body = [sub.visit(s) for s in body]
